@@ -442,6 +442,211 @@ def folder_tick_order() -> List[str]:
     return out
 
 
+# ------------------------------------------------------------------------------------------ what the agent is shown for a folder
+OBS = "game/agent/observations/file_system_observations.py"
+GAME = "game/game.py"
+FILESYSTEM = "simulator/file_system/file_system.py"
+
+
+def _pos_neg(test: ast.expr) -> Tuple[str, str]:
+    """a test and its negation in one normal form (`not X` <-> `X`), so that swapping the branches of an `if` gives the same rows"""
+    if isinstance(test, ast.UnaryOp) and isinstance(test.op, ast.Not):
+        x = _flat(ast.unparse(test.operand))
+        return f"not ({x})", x
+    x = _flat(ast.unparse(test))
+    return (f"({x})" if isinstance(test, ast.BoolOp) else x), f"not ({x})"
+
+
+def decision_rows(fn: ast.FunctionDef) -> List[Tuple[str, str, str]]:
+    """the function as a guarded-effect table: one row (effect, guard, value) per assignment / return / loop-free call statement,
+    the guard being the conjunction (sorted) of the enclosing tests and of the negated tests of earlier always-exiting branches.
+    Independent of the order of `if` branches and of guard-clause vs nested style; strict: loops and try blocks are refused."""
+    rows: List[Tuple[str, str, str]] = []
+
+    def walk(body, guards):
+        guards = list(guards)
+        for st in body:
+            g = " && ".join(sorted(guards))
+            if isinstance(st, ast.Expr) and isinstance(st.value, ast.Constant):
+                continue
+            if isinstance(st, ast.If):
+                pos, neg = _pos_neg(st.test)
+                walk(st.body, guards + [pos])
+                walk(st.orelse, guards + [neg])
+                if _always_exits(st.body) and not _always_exits(st.orelse):
+                    guards.append(neg)
+                elif st.orelse and _always_exits(st.orelse) and not _always_exits(st.body):
+                    guards.append(pos)
+            elif isinstance(st, ast.Assign) and len(st.targets) == 1:
+                rows.append(("set " + _flat(ast.unparse(st.targets[0])), g, _flat(ast.unparse(st.value))))
+            elif isinstance(st, ast.Return):
+                rows.append(("return", g, _flat(ast.unparse(st.value)) if st.value is not None else "None"))
+            elif isinstance(st, ast.Expr):
+                rows.append(("do", g, _flat(ast.unparse(st.value))))
+            else:
+                raise ValueError(f"{fn.name}: statement shape not recognised: {_flat(ast.unparse(st))[:80]}")
+    walk(fn.body, [])
+    return sorted(rows)
+
+
+OBS_ATOMS = {"folder_state is NOT_PRESENT_IN_STATE": "absent", "self.file_system_requires_scan": "rq",
+             "folder_state['scanned_this_step']": "scanned", "self._cached_uuid is None": "idNone",
+             "folder_state.get('uuid') == self._cached_uuid": "idSame", "folder_state['uuid'] == self._cached_uuid": "idSame",
+             "self._cached_uuid == folder_state.get('uuid')": "idSame", "self._cached_uuid is not None": "!idNone",
+             "folder_state is not NOT_PRESENT_IN_STATE": "!absent", "self.files": "files"}
+OBS_BITS = ("absent", "rq", "scanned", "idNone", "idSame")
+
+
+def observe_truth():
+    """`FolderObservation.observe` EXECUTED symbolically (pure ast) for every valuation of its five Boolean inputs - folder absent
+    from the state dictionary, requires_scan, the folder's scanned_this_step, no uuid cached yet, cached uuid equals the folder's -:
+    what is returned, which expression becomes the reported health, whether the cache / the cached uuid are written. A SEMANTIC
+    table: any rewrite of the control flow with the same meaning (swapped branches, De Morgan, guard clauses, helper locals) gives
+    the same rows. Strict: an unknown test atom, a loop or a non-Boolean `if` test is refused."""
+    fn = find_method(class_def(parse(OBS), "FolderObservation"), "observe")
+
+    class Ret(Exception):
+        pass
+
+    def run(val: Dict[str, bool]):
+        env: Dict[str, object] = {}
+        raw: Dict[str, str] = {}
+
+        def ev(e):
+            """Boolean value of `e`, or None when it is not a Boolean over the atoms"""
+            if isinstance(e, ast.BoolOp):
+                vs = [ev(x) for x in e.values]
+                if any(v is None for v in vs):
+                    return None
+                return all(vs) if isinstance(e.op, ast.And) else any(vs)
+            if isinstance(e, ast.UnaryOp) and isinstance(e.op, ast.Not):
+                v = ev(e.operand)
+                return None if v is None else not v
+            if isinstance(e, ast.Name) and isinstance(env.get(e.id), bool):
+                return env[e.id]
+            key = OBS_ATOMS.get(_flat(ast.unparse(e)))
+            if key is None:
+                return None
+            return (not val[key[1:]]) if key.startswith("!") else val[key]
+
+        out = {"ret": None}
+
+        def block(body):
+            for st in body:
+                if isinstance(st, ast.Expr) and isinstance(st.value, ast.Constant):
+                    continue
+                if isinstance(st, ast.If):
+                    t = ev(st.test)
+                    if t is None:
+                        raise ValueError(f"FolderObservation.observe: test not over the known atoms: {_flat(ast.unparse(st.test))}")
+                    block(st.body if t else st.orelse)
+                elif isinstance(st, ast.Assign) and len(st.targets) == 1:
+                    tgt = _flat(ast.unparse(st.targets[0]))
+                    raw[tgt] = _flat(ast.unparse(st.value))
+                    v = ev(st.value)
+                    if v is None:
+                        v = st.value
+                        # a local that merely names another local (obs['health_status'] = health_status)
+                        if isinstance(v, ast.Name) and v.id in env:
+                            v = env[v.id]
+                    env[tgt] = v
+                elif isinstance(st, ast.Return):
+                    out["ret"] = _flat(ast.unparse(st.value)) if st.value is not None else "None"
+                    raise Ret()
+                else:
+                    raise ValueError(f"FolderObservation.observe: statement shape not recognised: {_flat(ast.unparse(st))[:80]}")
+        try:
+            block(fn.body)
+        except Ret:
+            pass
+
+        def show(x):
+            return "-" if x is None else (_flat(ast.unparse(x)) if isinstance(x, ast.AST) else str(x))
+        health = env.get("obs['health_status']")
+        caches = raw.get("self.cached_obs") == "obs" and out["ret"] == "obs"
+        uuid = show(env.get("self._cached_uuid"))
+        return (out["ret"], show(health), caches, uuid)
+
+    rows = []
+    for k in range(2 ** len(OBS_BITS)):
+        val = {b: bool((k >> (len(OBS_BITS) - 1 - i)) & 1) for i, b in enumerate(OBS_BITS)}
+        val["files"] = False
+        rows.append(([val[b] for b in OBS_BITS], run(val)))
+    return rows
+
+
+def pre_chain() -> List[Tuple[str, str, str, str]]:
+    """rows (scope, receiver.pre_timestep, loop it sits in, guard): every call of a `pre_timestep` inside the `pre_timestep`
+    methods on the path game -> simulation -> network -> node -> file system -> folder"""
+    wanted = [(GAME, "PrimaiteGame"), ("simulator/sim_container.py", "Simulation"), ("simulator/network/container.py", "Network"),
+              (BASE, "Node"), (FILESYSTEM, "FileSystem"), (FOLDER, "Folder")]
+    rows = []
+    for rel, cls in wanted:
+        fn = find_method(class_def(parse(rel), cls), "pre_timestep")
+
+        def walk(body, loops, guards):
+            guards = list(guards)
+            for st in body:
+                if isinstance(st, ast.If):
+                    pos, neg = _pos_neg(st.test)
+                    walk(st.body, loops, guards + [pos])
+                    walk(st.orelse, loops, guards + [neg])
+                    if _always_exits(st.body):
+                        guards.append(neg)
+                elif isinstance(st, ast.For):
+                    walk(st.body, loops + [f"for {_flat(ast.unparse(st.target))} in {_flat(ast.unparse(st.iter))}"], guards)
+                elif isinstance(st, (ast.While, ast.Try, ast.With)):
+                    raise ValueError(f"{cls}.pre_timestep: statement shape not recognised")
+                else:
+                    for c in ast.walk(st):
+                        if isinstance(c, ast.Call) and isinstance(c.func, ast.Attribute) and c.func.attr == "pre_timestep":
+                            rows.append((f"{cls}.pre_timestep", _flat(ast.unparse(c.func)), "; ".join(loops), " && ".join(sorted(guards))))
+        walk(fn.body, [], [])
+    return rows
+
+
+def game_step_order() -> List[str]:
+    """the order, inside `PrimaiteGame.step`, of the four phases that matter for an observation, with the guard each sits under;
+    and what `advance_timestep` / `pre_timestep` hand to the simulation"""
+    cls = class_def(parse(GAME), "PrimaiteGame")
+    phases = ("pre_timestep", "apply_agent_actions", "advance_timestep", "update_agents")
+    out = []
+
+    def walk(body, guards):
+        for st in body:
+            if isinstance(st, ast.If):
+                pos, neg = _pos_neg(st.test)
+                walk(st.body, guards + [pos])
+                walk(st.orelse, guards + [neg])
+                continue
+            for c in ast.walk(st):
+                if (isinstance(c, ast.Call) and isinstance(c.func, ast.Attribute) and c.func.attr in phases
+                        and isinstance(c.func.value, ast.Name) and c.func.value.id == "self"):
+                    out.append(c.func.attr + ("" if not guards else " [" + " && ".join(guards) + "]"))
+    walk(find_method(cls, "step").body, [])
+    for meth, callee in (("advance_timestep", "apply_timestep"), ("pre_timestep", "pre_timestep")):
+        fn = find_method(cls, meth)
+        calls = [_flat(ast.unparse(c.func)) for st in fn.body for c in ast.walk(st)
+                 if isinstance(c, ast.Call) and isinstance(c.func, ast.Attribute) and c.func.attr == callee]
+        if isinstance(fn.body[-1], ast.If) or any(isinstance(st, (ast.If, ast.For, ast.While, ast.Try)) for st in fn.body):
+            raise ValueError(f"PrimaiteGame.{meth}: compound statement, re-examine")
+        out.append(f"{meth} -> " + ",".join(calls))
+    return out
+
+
+def state_keys() -> List[Tuple[str, str, str]]:
+    """(scope, key, expression) of the state-dictionary entries a folder observation reads"""
+    rows = []
+    for rel, cls, keys in ((ITEM, "FileSystemItemABC", ("health_status", "visible_status")), (FOLDER, "Folder", ("scanned_this_step",)),
+                           (FILESYSTEM, "FileSystem", ("folders",))):
+        fn = find_method(class_def(parse(rel), cls), "describe_state")
+        for r in decision_rows(fn):
+            for k in keys:
+                if r[0] == f"set state['{k}']":
+                    rows.append((f"{cls}.describe_state", k, r[2] + ("" if not r[1] else f" [{r[1]}]")))
+    return rows
+
+
 def emit() -> str:
     sw_enum = enum_members(SOFTWARE, "SoftwareHealthState")
     fs_enum = enum_members(ITEM, "FileSystemItemHealthStatus")
@@ -573,6 +778,21 @@ structure T where
   scope : String
   call : String
 deriving DecidableEq, Repr
+/-- `FolderObservation.observe` as a guarded-effect table (effect, guard, value) -/
+def folderObserve : List (String × String × String) := [
+  {(",{}  ".format(chr(10))).join("(" + ", ".join(lstr(c) for c in r) + ")" for r in decision_rows(find_method(class_def(parse(OBS), "FolderObservation"), "observe")))}]
+/-- `FolderObservation.observe` executed symbolically for every valuation of (absent, requires_scan, scanned_this_step, no uuid
+cached, cached uuid = the folder's): (valuation, returned, reported health, cache written?, cached uuid written) -/
+def folderObserveTruth : List (List Bool × String × String × Bool × String) := [
+  {(",{}  ".format(chr(10))).join("([" + ", ".join("true" if x else "false" for x in a) + "], " + lstr(b[0]) + ", " + lstr(b[1]) + ", " + ("true" if b[2] else "false") + ", " + lstr(b[3]) + ")" for a, b in observe_truth())}]
+/-- every `pre_timestep` call on the path game -> folder: (scope, call, enclosing loops, guard) -/
+def preChain : List (String × String × String × String) := [
+  {(",{}  ".format(chr(10))).join("(" + ", ".join(lstr(c) for c in r) + ")" for r in pre_chain())}]
+/-- order of the phases of `PrimaiteGame.step`, and what the game hands to the simulation -/
+def gameStepOrder : List String := {llist([lstr(x) for x in game_step_order()])}
+/-- the state-dictionary entries a folder observation reads -/
+def stateKeys : List (String × String × String) := [
+  {(",{}  ".format(chr(10))).join("(" + ", ".join(lstr(c) for c in r) + ")" for r in state_keys())}]
 def triggerMethods : List String := {llist([lstr(x) for x in TRIGGER_METHODS])}
 def triggers : List T := [
   {(",{}  ".format(chr(10))).join("⟨" + ", ".join(lstr(c) for c in r) + "⟩" for r in triggers())}]
